@@ -117,3 +117,25 @@ func TestDetachedFactsAgreeWithReferenceVerifier(t *testing.T) {
 		}
 	})
 }
+
+func TestNearMissIdentitiesDifferFromVictim(t *testing.T) {
+	const v, a = "did:web:example.com:iam:victim", "did:web:example.com:iam:attacker"
+	for _, k := range NearDIDKinds {
+		d := NearDID(v, k)
+		if d == v || d == "" {
+			t.Fatalf("%s: %q is not another DID", k, d)
+		}
+	}
+	if !strings.HasPrefix(NearDID(v, "path"), v) || !strings.HasPrefix(NearDID(v, "host"), v) || !strings.HasPrefix(v, NearDID(v, "prefix-seg")) ||
+		!strings.HasPrefix(v, NearDID(v, "prefix-str")) || !strings.EqualFold(v, NearDID(v, "case-last")) || !strings.HasSuffix(NearDID(v, "contains"), v[len("did:web:"):]) {
+		t.Fatal("near-miss kinds lost their defining relation to the victim's DID")
+	}
+	seen := map[string]bool{v + "#0": true}
+	for _, k := range append([]string{""}, NearKinds...) {
+		kid := NearKid(v, a, "0", k)
+		if seen[kid] {
+			t.Fatalf("%s: key id %q collides", k, kid)
+		}
+		seen[kid] = true
+	}
+}
